@@ -573,3 +573,55 @@ package account
 //@   requires [object!init] ptr(accountObject, registered(ref(s), *ch.account)).cachedStorage != nil && ptr(accountObject, registered(ref(s), *ch.account)).dirtyStorage != nil && ptr(accountObject, registered(ref(s), *ch.account)).db != nil
 //@   ensures [pending] forall k string :: bytes(k) == bytes(ch.key) ==> has(ptr(accountObject, old(registered(ref(s), *ch.account))).dirtyStorage, k) && ptr(accountObject, old(registered(ref(s), *ch.account))).dirtyStorage[k] == ch.prevalue
 //@   ensures [restore] ghost(stor) == @store(old(ghost(stor)), old(registered(ref(s), *ch.account)), @store(@select(old(ghost(stor)), old(registered(ref(s), *ch.account))), bytes(ch.key), bytes(ch.prevalue)))
+
+// ---------------------------------------------------------------------------------------------
+// Finalise ranges over the set of dirty addresses, a Go map (C01: "the trie root is order independent so ranging
+// dirty maps is harmless"). What makes that true: every iteration writes the account trie only under its own
+// address, with a value that is a function of that account object alone, and distinct addresses have distinct
+// objects. ghost mtrie: the content of the account trie (key -> encoded account; the root is a function of it, C02).
+// The steps themselves (RLP encoding, storage-trie hashing, the trie) are trusted stubs here.
+//@ ghost mtrie (Array {common.Address} Bytes)
+//@ spec abstract fn regObj(a common.Address) Int
+//@ spec abstract fn emptyObj(o Int) bool
+//@ spec abstract fn stRootOf(o Int) common.Hash
+//@ spec abstract fn encAcc(a Account) Bytes
+
+//@ func ext_registryLoad
+//@   option trusted extern=(*sync.Map).Load in=storage/account
+//@   requires [keytype] istype(arg1, common.Address)
+//@   ensures result1 == (regObj(unbox(arg1, common.Address)) != 0)
+//@   ensures result1 ==> istype(result0, *accountObject) && ref(unbox(result0, *accountObject)) != 0 && ref(unbox(result0, *accountObject)) == regObj(unbox(arg1, common.Address)) && unbox(result0, *accountObject).address == unbox(arg1, common.Address)
+//@   modifies nothing
+
+//@ func accountObject.empty
+//@   option trusted
+//@   ensures result == emptyObj(ref(ao))
+//@   modifies nothing
+
+//@ func AccountDB.deleteAccountObject
+//@   option trusted
+//@   requires adb != nil && stateObject != nil
+//@   ensures stateObject.deleted && ghost(mtrie) == @store(old(ghost(mtrie)), stateObject.address, bytes(""))
+//@   modifies stateObject.deleted, ghost(mtrie)
+
+//@ func accountObject.updateRoot
+//@   option trusted
+//@   requires ao != nil
+//@   ensures ao.data.Root == stRootOf(ref(ao))
+//@   modifies ao.data.Root, ao.trie, ghost(flushed)
+
+//@ func AccountDB.updateAccountObject
+//@   option trusted
+//@   requires adb != nil && stateObject != nil
+//@   ensures ghost(mtrie) == @store(old(ghost(mtrie)), stateObject.address, encAcc(stateObject.data))
+//@   modifies ghost(mtrie)
+
+//@ func AccountDB.clearJournalAndRefund
+//@   option trusted
+//@   modifies adb.transitions, adb.validRevisions, adb.refund
+
+//@ func AccountDB.Finalise
+//@   property C01
+//@   requires adb != nil
+//@   loop 0: invariant true
+//@   loop 0: commutes on ghost(mtrie)
